@@ -155,6 +155,24 @@ DecBytes(b, p) ==
            IF Has(b, p, tot) THEN DOk(BytesToHex(Take(b, p + 4, n)), p + tot) ELSE DErr(p)
     ELSE DErr(p)
 
+\* a lower bound on the encoded size of a value of type ty (fuel bounds the descent through declared types;
+\* 0 is always a sound answer)
+RECURSIVE MinSize(_, _, _), MinFields(_, _, _, _)
+MinFields(S, d, i, fuel) ==
+  IF i > Len(d.fields) THEN 0
+  ELSE (IF HasFlag(d.fields[i]) THEN 0 ELSE MinSize(S, d.fields[i].ty, fuel)) + MinFields(S, d, i + 1, fuel)
+MinSize(S, ty, fuel) ==
+  IF IsVec(ty) THEN 4
+  ELSE CASE ty \in {"int", "#", "Bool", "bytes", "string"} -> 4
+         [] ty = "long" -> 8
+         [] ty = "int128" -> 16
+         [] ty = "int256" -> 32
+         [] ty = "true" -> 0
+         [] fuel = 0 -> 0
+         [] IsCtor(S, ty) -> MinFields(S, CtorDecl(S, ty), 1, fuel - 1)
+         [] IsResult(S, ty) -> 4
+         [] OTHER -> 0
+
 RECURSIVE DecTy(_, _, _, _), DecFields(_, _, _, _, _, _), DecItems(_, _, _, _, _, _)
 DecFields(S, d, b, p, i, acc) ==
   IF i > Len(d.fields) THEN DOk(acc, p)
@@ -176,8 +194,9 @@ DecTy(S, ty, b, p) ==
   IF IsVec(ty) THEN
     IF ~Has(b, p, 4) \/ b[p + 4] >= 128 THEN DErr(p)
     ELSE LET n == b[p + 1] + 256 * b[p + 2] + 65536 * b[p + 3] + 16777216 * b[p + 4] IN
-         \* every item of every element type TON schemas put into vectors occupies at least one byte
-         IF n > Len(b) - (p + 4) THEN DErr(p) ELSE DecItems(S, ty.vector, b, p + 4, n, <<>>)
+         \* early exit: n items need at least n * MinSize bytes (items of zero size are decoded one by one)
+         IF MinSize(S, ty.vector, 6) > 0 /\ n > (Len(b) - (p + 4)) \div MinSize(S, ty.vector, 6) THEN DErr(p)
+         ELSE DecItems(S, ty.vector, b, p + 4, n, <<>>)
   ELSE CASE ty = "int"    -> IF Has(b, p, 4) THEN DOk(B!SDec(LEToBits(Take(b, p, 4))), p + 4) ELSE DErr(p)
          [] ty = "long"   -> IF Has(b, p, 8) THEN DOk(B!SDec(LEToBits(Take(b, p, 8))), p + 8) ELSE DErr(p)
          [] ty = "#"      -> IF Has(b, p, 4) THEN DOk(BitsToDec(LEToBits(Take(b, p, 4))), p + 4) ELSE DErr(p)
